@@ -393,9 +393,9 @@ pub fn run(ctx: &mut Ctx) {
     }));
     let rt = tokio::runtime::Builder::new_multi_thread().worker_threads(8).enable_all().build().unwrap();
     let root = if std::path::Path::new("/dev/shm").is_dir() { tempfile::tempdir_in("/dev/shm").unwrap() } else { tempfile::tempdir().unwrap() };
-    let n = if ctx.thorough() { 250 } else { 25 };
+    let n = if ctx.thorough() { 250 / crate::store_run::chunks() } else { 25 };
     for i in 0..n { rt.block_on(conc_history(ctx, root.path(), &format!("{i}"))); }
-    for i in 0..(if ctx.thorough() { 12 } else { 2 }) { rt.block_on(burst_history(ctx, root.path(), &format!("b{i}"))); }
-    for i in 0..(if ctx.thorough() { 10 } else { 2 }) { rt.block_on(tail_race_history(ctx, root.path(), &format!("t{i}"))); }
+    for i in 0..(if ctx.thorough() { (12 / crate::store_run::chunks()).max(2) } else { 2 }) { rt.block_on(burst_history(ctx, root.path(), &format!("b{i}"))); }
+    for i in 0..(if ctx.thorough() { (10 / crate::store_run::chunks()).max(2) } else { 2 }) { rt.block_on(tail_race_history(ctx, root.path(), &format!("t{i}"))); }
     *sierradb::writer_thread_pool::verif::PAUSE_HOOK.write().unwrap() = None;
 }
